@@ -105,10 +105,11 @@ func runWebhooks(c WCase) (ev.Info, error) {
 		case "mutating":
 			d.Mutating = append(d.Mutating, hcfg.Adm{Name: b.Name, Rules: rules, Group: b.Group, Includes: b.Includes})
 		case "conversion":
-			d.Conversion = append(d.Conversion, hcfg.Conv{Name: b.Name, CrdName: crd, Group: b.Group, Includes: b.Includes, Conversions: []hcfg.ConvRule{{From: "stable.example.com/v1alpha1", To: "stable.example.com/v1"}}})
+			d.Conversion = append(d.Conversion, hcfg.Conv{Name: b.Name, CrdName: crd, Group: b.Group, Includes: b.Includes, Conversions: []hcfg.ConvRule{{From: "stable.example.com/v1alpha1", To: "stable.example.com/v1beta1"}, {From: "stable.example.com/v1beta1", To: "stable.example.com/v1"}}})
 		}
 	}
 	script := vh.Script{Config: d.JSON(), Rules: []vh.Rule{
+		{Match: `"toVersion": "stable.example.com/v1beta1"`, Do: vh.Behaviour{ConvertTo: "stable.example.com/v1beta1"}},
 		{Match: `"type": "Conversion"`, Do: vh.Behaviour{ConvertTo: "stable.example.com/v1"}},
 		{Do: vh.Behaviour{Admission: &vh.File{Content: `{"allowed":true}`}}},
 	}}
@@ -153,8 +154,24 @@ func runWebhooks(c WCase) (ev.Info, error) {
 				ran = append(ran, x)
 			}
 		}
-		if len(ran) != 1 {
-			return info, fmt.Errorf("%s: %d hook executions (HTTP %d %s)", where, len(ran), rec.Code, rec.Body.String())
+		// a conversion request is served by the two rules of the binding, one execution each
+		wantRuns := 1
+		if b.Kind == "conversion" {
+			wantRuns = 2
+		}
+		if len(ran) != wantRuns {
+			return info, fmt.Errorf("%s: %d hook executions, expected %d (HTTP %d %s)", where, len(ran), wantRuns, rec.Code, rec.Body.String())
+		}
+		if b.Kind == "conversion" {
+			// the first step, checked here; the second one is checked below like every other execution
+			var first []map[string]any
+			if err := json.Unmarshal(ran[0].Context, &first); err != nil || len(first) != 1 {
+				return info, fmt.Errorf("%s: the binding context file of the first conversion step is not a JSON array with one item: %s%s", where, string(ran[0].Context), ran[0].RawCtx)
+			}
+			if first[0]["fromVersion"] != "stable.example.com/v1alpha1" || first[0]["toVersion"] != "stable.example.com/v1beta1" || first[0]["binding"] != b.Name || first[0]["type"] != "Conversion" {
+				return info, fmt.Errorf("%s: first conversion step got fromVersion/toVersion %v/%v (binding %v, type %v), its rule says stable.example.com/v1alpha1 -> stable.example.com/v1beta1", where, first[0]["fromVersion"], first[0]["toVersion"], first[0]["binding"], first[0]["type"])
+			}
+			ran = ran[1:]
 		}
 		var arr []map[string]any
 		if err := json.Unmarshal(ran[0].Context, &arr); err != nil || len(arr) != 1 {
@@ -172,8 +189,8 @@ func runWebhooks(c WCase) (ev.Info, error) {
 		}
 		want := []string{"binding", "type", "review"}
 		if b.Kind == "conversion" {
-			if item["fromVersion"] != "stable.example.com/v1alpha1" || item["toVersion"] != "stable.example.com/v1" {
-				return info, fmt.Errorf("%s: fromVersion/toVersion are %v/%v, the rule says stable.example.com/v1alpha1 -> stable.example.com/v1", where, item["fromVersion"], item["toVersion"])
+			if item["fromVersion"] != "stable.example.com/v1beta1" || item["toVersion"] != "stable.example.com/v1" {
+				return info, fmt.Errorf("%s: second conversion step got fromVersion/toVersion %v/%v, its rule says stable.example.com/v1beta1 -> stable.example.com/v1", where, item["fromVersion"], item["toVersion"])
 			}
 			want = append(want, "fromVersion", "toVersion")
 		}
@@ -238,7 +255,7 @@ func safeName(s string) string {
 	return string(out)
 }
 
-const ruleWebhooks = "one scripted hook with 0-2 snapshot-only kubernetes bindings (group none/g1), 1-4 kubernetesValidating / kubernetesMutating / kubernetesCustomResourceConversion bindings with group in {none, g1, a group without members} and includeSnapshotsFrom subsets, 0-3 ConfigMaps; 1-4 AdmissionReview/ConversionReview requests through the real routers of the started operator; the binding context file of every execution (from the hook process's log) must be an array with one item carrying exactly the documented keys for its type (binding, type Validating/Mutating/Conversion, review with the request's uid, fromVersion/toVersion of the rule, snapshots exactly when the effective include set is non-empty, with exactly those keys and the cluster's objects). Non-trivial: an item with snapshots."
+const ruleWebhooks = "one scripted hook with 0-2 snapshot-only kubernetes bindings (group none/g1), 1-4 kubernetesValidating / kubernetesMutating / kubernetesCustomResourceConversion bindings with group in {none, g1, a group without members} and includeSnapshotsFrom subsets, 0-3 ConfigMaps; 1-4 AdmissionReview/ConversionReview requests through the real routers of the started operator; the binding context file of every execution (from the hook process's log) must be an array with one item carrying exactly the documented keys for its type (binding, type Validating/Mutating/Conversion, review with the request's uid, fromVersion/toVersion of the rule that is being executed - the conversion binding declares two rules and a request needs both -, snapshots exactly when the effective include set is non-empty, with exactly those keys and the cluster's objects). Non-trivial: an item with snapshots."
 
 func TestWebhookContexts(t *testing.T) {
 	ev.Main(t, ev.Spec[WCase]{Property: "C09", Part: "webhooks", Rule: ruleWebhooks, Gen: genWebhooks, Run: runWebhooks, Journal: true})
